@@ -206,7 +206,7 @@ def demo_inputs(rng, tier):
 def check_C11(res, tier, seed, replay):
     rng = random.Random(seed)
     res.assumptions += ['the demos are rebuilt from /repo/src with g++/mpicxx command lines equivalent to CMakeLists.txt (-DNDEBUG)',
-                        'watchdogs: 60 s for the sequential demos, 30 s for mpiexec jobs on graphs that take milliseconds; a timeout is re-run once before it is believed',
+                        'watchdogs: 120 s for the sequential demos, 100 s for mpiexec jobs on graphs that take milliseconds (about 2-3 s per launch on an idle machine); a timeout is re-run once before it is believed',
                         'weights are small integers so that the default 6-digit printing of the weight is exact',
                         'approx-mcb-dimacs is only run with k >= 2 (it rejects k <= 1 by design)']
     wd = vlib.scratch('C11')
@@ -258,7 +258,7 @@ def check_C11(res, tier, seed, replay):
 
         def go(j):
             prog, args, k, P, g = j
-            to = 30 if P else 60
+            to = 100 if P else 120
             rc, timedout, so, se, dt = run_demo(exes[prog], args, to, P)
             if timedout:   # believed only if it repeats
                 rc, timedout, so, se, dt = run_demo(exes[prog], args, to, P)
